@@ -7,7 +7,7 @@ VS_OUT = os.path.join(VBUILD, "vs")
 
 
 def build_harness(name, extra=()):
-    with Lock("vs-" + name):
+    with Lock("vs-build"):
         r = subprocess.run([os.path.join(VERIF, "vsched", "build.sh"), name, *extra], stdout=subprocess.PIPE, stderr=subprocess.STDOUT, text=True)
         if r.returncode != 0:
             raise CheckError("harness %s does not build against the working tree:\n%s" % (name, r.stdout[-3000:]))
